@@ -348,6 +348,108 @@ Section RingProofs.
     - exact (IH _ _ _ _ _ _ _ _ H1 H2 Hlt Ha Hin).
   Qed.
 
+  (* ---------- publicKeyRequests ---------- *)
+  Definition needs (slots : list (slot M)) : list (skey * Z) :=
+    flat_map (fun s => match sl_res s with
+                       | ROk => []
+                       | RErr => map (fun kid => ((rq_server (sl_req s), kid), rq_at (sl_req s))) (sl_kids s)
+                       end) slots.
+
+  Definition add_need (acc : kmap Z) (n : skey * Z) : kmap Z :=
+    let maxts := match mfind (fst n) acc with Some t => t | None => 0 end in
+    if maxts <=? snd n then minsert (fst n) (snd n) acc else acc.
+
+  Lemma pkr_flat_acc slots : forall acc,
+    fold_left (fun acc s =>
+                 match sl_res s with
+                 | ROk => acc
+                 | RErr => fold_left (add_request (rq_server (sl_req s)) (rq_at (sl_req s))) (sl_kids s) acc
+                 end) slots acc
+    = fold_left add_need (needs slots) acc.
+  Proof.
+    induction slots as [|s slots IH]; intro acc; simpl; [reflexivity|].
+    rewrite fold_left_app, IH. f_equal.
+    destruct (sl_res s); [reflexivity|].
+    generalize acc. induction (sl_kids s) as [|kid kids IHk]; intro a; simpl; [reflexivity|].
+    rewrite IHk. reflexivity.
+  Qed.
+
+  Lemma pkr_flat slots : public_key_requests M slots = fold_left add_need (needs slots) [].
+  Proof. unfold public_key_requests. apply pkr_flat_acc. Qed.
+
+  Lemma add_need_from l : forall acc k t,
+    mfind k (fold_left add_need l acc) = Some t -> mfind k acc = Some t \/ In (k, t) l.
+  Proof.
+    induction l as [|[k0 t0] l IH]; intros acc k t H; simpl in *; [left; exact H|].
+    apply IH in H. destruct H as [H|H]; [|right; right; exact H].
+    unfold add_need in H; simpl in H.
+    destruct ((match mfind k0 acc with Some t1 => t1 | None => 0 end) <=? t0); [|left; exact H].
+    destruct (skey_eq_dec k k0) as [->|N].
+    - rewrite mfind_minsert_same in H. inversion H; subst. right; left; reflexivity.
+    - rewrite mfind_minsert_other in H by exact N. left; exact H.
+  Qed.
+
+  Lemma add_need_mono l : forall acc k t,
+    mfind k acc = Some t -> exists t', mfind k (fold_left add_need l acc) = Some t' /\ t <= t'.
+  Proof.
+    induction l as [|[k0 t0] l IH]; intros acc k t H; simpl; [exists t; split; [exact H|lia]|].
+    unfold add_need at 2; simpl.
+    destruct (skey_eq_dec k k0) as [->|N].
+    - rewrite H. destruct (Z.leb_spec t t0) as [L|L].
+      + destruct (IH (minsert k0 t0 acc) k0 t0 (mfind_minsert_same _ _ _)) as [t' [H1 H2]].
+        exists t'. split; [exact H1|lia].
+      + apply IH. exact H.
+    - destruct ((match mfind k0 acc with Some t1 => t1 | None => 0 end) <=? t0).
+      + apply IH. rewrite mfind_minsert_other by exact N. exact H.
+      + apply IH. exact H.
+  Qed.
+
+  Lemma add_need_covers l : forall acc k t0,
+    In (k, t0) l -> 0 <= t0 -> exists t, mfind k (fold_left add_need l acc) = Some t /\ t0 <= t.
+  Proof.
+    induction l as [|[k1 t1] l IH]; intros acc k t0 Hin Hpos; simpl in *; [tauto|].
+    destruct Hin as [E|Hin]; [|apply IH; assumption].
+    inversion E; subst k1 t1. unfold add_need at 2; simpl.
+    destruct (mfind k acc) as [tm|] eqn:F.
+    - destruct (Z.leb_spec tm t0) as [L|L].
+      + apply add_need_mono. apply mfind_minsert_same.
+      + destruct (add_need_mono l acc k tm F) as [t' [H1 H2]]. exists t'. split; [exact H1|lia].
+    - destruct (Z.leb_spec 0 t0) as [L|L]; [|lia].
+      apply add_need_mono. apply mfind_minsert_same.
+  Qed.
+
+  Lemma needs_init reqs k t :
+    In (k, t) (needs (map init_slot reqs)) <->
+    exists r, In r reqs /\ fst k = rq_server r /\ In (snd k) (sl_kids (init_slot r)) /\ t = rq_at r.
+  Proof.
+    unfold needs. rewrite in_flat_map. split.
+    - intros [s [Hs Hin]]. apply in_map_iff in Hs. destruct Hs as [r [<- Hr]].
+      rewrite init_slot_res, init_slot_req in Hin. apply in_map_iff in Hin.
+      destruct Hin as [kid [E Hk]]. inversion E; subst. exists r. simpl. auto.
+    - intros [r [Hr [E1 [Hk E2]]]]. exists (init_slot r). split; [apply in_map; exact Hr|].
+      rewrite init_slot_res, init_slot_req. apply in_map_iff. exists (snd k). split; [|exact Hk].
+      destruct k as [a b]; simpl in *; subst; reflexivity.
+  Qed.
+
+  (* the request map handed to the database: a pair is in it only for a request that names that
+     server and carries that supported key id, with that request's timestamp; and every such
+     request is covered with a timestamp at least its own (so the timestamp is the maximum) *)
+  Lemma key_requests_sound reqs k t :
+    mfind k (public_key_requests M (map init_slot reqs)) = Some t ->
+    exists r, In r reqs /\ fst k = rq_server r /\ In (snd k) (sl_kids (init_slot r)) /\ t = rq_at r.
+  Proof.
+    rewrite pkr_flat. intro H. apply add_need_from in H. destruct H as [H|H]; [discriminate|].
+    apply needs_init. exact H.
+  Qed.
+
+  Lemma key_requests_cover reqs r kid :
+    In r reqs -> In kid (sl_kids (init_slot r)) -> 0 <= rq_at r ->
+    exists t, mfind (rq_server r, kid) (public_key_requests M (map init_slot reqs)) = Some t /\ rq_at r <= t.
+  Proof.
+    intros Hr Hk Hpos. rewrite pkr_flat. apply add_need_covers; [|exact Hpos].
+    apply needs_init. exists r. simpl. auto.
+  Qed.
+
   (* ================= VerifyJSONs ================= *)
   Section Call.
     Variables (now : Z) (dbf : fetcher) (dbs : kmap pkres -> bool) (fs : list fetcher) (reqs : list (vreq M)).
@@ -591,6 +693,42 @@ Section RingProofs.
           unfold fl_of in Hc. eapply fetch_loop_asked in G; [|exact Hc]. congruence.
     Qed.
   End Call.
+
+  Lemma dbcall_cases now dbf dbs fs reqs :
+    let kr0 := public_key_requests M (map init_slot reqs) in
+    let o := verify_jsons now dbf dbs fs reqs in
+    (kr0 = [] /\ o_dbcall o = None) \/ (kr0 <> [] /\ o_dbcall o = Some kr0).
+  Proof.
+    intros kr0 o. subst o.
+    destruct (verify_jsons_cases now dbf dbs fs reqs)
+      as [[E0 E]|[[E0 [_ E]]|[fromdb [E0 [_ [[_ E]|[_ E]]]]]]]; rewrite E; simpl; auto.
+  Qed.
+
+  Lemma thm_database_asked_only_for_needed_pairs : forall now dbf dbs fs reqs kr k t,
+    o_dbcall (verify_jsons now dbf dbs fs reqs) = Some kr -> mfind k kr = Some t ->
+    exists r ids, In r reqs /\ fst k = rq_server r /\ t = rq_at r /\
+                  kids_of (rq_server r) (rq_msg r) = Some ids /\ In (snd k) ids /\ supported (snd k) = true.
+  Proof.
+    intros now dbf dbs fs reqs kr k t HD HF.
+    destruct (dbcall_cases now dbf dbs fs reqs) as [[_ E]|[_ E]]; rewrite E in HD; [discriminate|].
+    inversion HD; subst kr. apply key_requests_sound in HF.
+    destruct HF as [r [Hr [E1 [Hk E2]]]]. apply init_slot_kids in Hk. destruct Hk as [ids [Ei [Hi Hs]]].
+    exists r, ids. repeat split; assumption.
+  Qed.
+
+  Lemma thm_database_asked_for_every_needed_pair : forall now dbf dbs fs reqs r ids kid,
+    In r reqs -> kids_of (rq_server r) (rq_msg r) = Some ids -> In kid ids -> supported kid = true ->
+    0 <= rq_at r ->
+    exists kr t, o_dbcall (verify_jsons now dbf dbs fs reqs) = Some kr /\
+                 mfind (rq_server r, kid) kr = Some t /\ rq_at r <= t.
+  Proof.
+    intros now dbf dbs fs reqs r ids kid Hr Ei Hi Hs Hpos.
+    assert (Hk : In kid (sl_kids (init_slot r))) by (apply init_slot_kids; exists ids; auto).
+    destruct (key_requests_cover reqs r kid Hr Hk Hpos) as [t [F L]].
+    destruct (dbcall_cases now dbf dbs fs reqs) as [[E0 _]|[_ E]].
+    - rewrite E0 in F. discriminate.
+    - eexists; exists t. split; [exact E|]. split; assumption.
+  Qed.
 
   (* ---------- the statements of Props/C12.v ---------- *)
   Lemma thm_verify_jsons_sound : forall now dbf dbs fs reqs rs i r,
